@@ -16,8 +16,14 @@ any `φ` with `0 ≤ φ ≤ p < π/2` and `qs = q(p)`:
 * `C08_aea_straddle`: the increment AFTER a pass from `φ` is `≤ (p−φ)²/((1−e²) q'(p))`: what two runs that fall on
   different sides of the stop test `|dphi| <= 1e-7` can differ by — the judge's straddle term.
 
-Still missing for "returns within 25 passes": the start `asin(qs/2)` lies in `[0, p]` (needs `q(s) ≤ 2s`) and the
-count of the linear phase near the pole.
+* `C08_aeaPhi1zLoop_close`, `C08_aeaPhi1z_close`, `C08_aea_inv_close`: WHATEVER the loop / `aeaPhi1z` / the Albers inverse
+  returns (start `asin(qs/2) ∈ [0, p]` by `qOf_le_two_mul`: `q(s) ≤ 2s`) lies in `[0, p]` within
+  `(1e-7·q'(0)/q'(p))²/((1−e²) q'(p))` of `p` — 1.2e-9 rad at 89° (`aea_bound_numeric`): the 1e-6 degree clause;
+* `C08_aeaPhi1zLoop_ok`, `C08_aeaPhi1z_converges_partial`, `C08_aea_inv_within_partial`: it DOES return within its 25
+  passes for `0 ≤ p ≤ 60°` (linear rate against `q'(0)` alone).
+
+Still missing: "returns within 25 passes" between 60° and 89° (needs the linear rate against `q'(φ₀)` with a lower bound
+of the start, then the quadratic phase), and negative latitudes (the iteration is odd in `(qs, φ)`).
 -/
 set_option linter.unusedSimpArgs false
 namespace GeomV.C08
@@ -280,6 +286,330 @@ theorem C08_aea_straddle (e p phi : ℝ) (he : 1.0e-7 < e) (he2 : e * e ≤ 1 / 
   obtain ⟨n1, n2, _⟩ := C08_aea_newton_monotone e p (phi + aeaPhi1zStep e (qsfnz e (sin p)) phi) he he2
     (by linarith) m2 hp
   exact ⟨n1, by linarith⟩
+
+/-! ## the loop: whatever it returns from a start in `[0, p]`, and when it cannot run out of passes -/
+
+theorem qD_zero (e : ℝ) : qD e 0 = (1 - e * e) * 2 := by simp [qD]
+
+/-- `q'(p)/q'(0) = cos p/(1−e² sin²p)² ≥ cos p` -/
+theorem qD_ratio_ge_cos (e p : ℝ) (he0 : 0 < e) (he1 : e < 1) (hp0 : 0 ≤ p) (hp : p ≤ π / 2) :
+    cos p ≤ qD e p / qD e 0 := by
+  obtain ⟨a, b⟩ := esin_pos e p he0 he1
+  have hc : 0 ≤ cos p := cos_nonneg_of_mem_Icc ⟨by linarith [pi_pos], hp⟩
+  have ha : 0 < 1 - e * e := by nlinarith
+  have hs0 : 0 ≤ sin p := sin_nonneg_of_nonneg_of_le_pi hp0 (by linarith [pi_pos])
+  have hden : (1 - e * sin p) * (1 + e * sin p) ≤ 1 := by nlinarith [mul_nonneg he0.le hs0]
+  have hden0 : 0 < (1 - e * sin p) * (1 + e * sin p) := mul_pos a b
+  have hsq : ((1 - e * sin p) * (1 + e * sin p)) ^ 2 ≤ 1 := by nlinarith
+  rw [qD_zero, qD]
+  have : (1 - e * e) * 2 / ((1 - e * sin p) * (1 + e * sin p)) ^ 2 * cos p / ((1 - e * e) * 2)
+      = cos p / ((1 - e * sin p) * (1 + e * sin p)) ^ 2 := by
+    have hne2 : (1 : ℝ) - e ^ 2 ≠ 0 := by rw [pow_two]; exact ha.ne'
+    have hne : (1 : ℝ) - e * e ≠ 0 := ha.ne'
+    field_simp
+  rw [this]
+  rw [le_div_iff₀ (by positivity)]
+  nlinarith
+
+/-- **whatever the loop returns** from a start in `[0, p]`, `p < π/2`, lies in `[start, p]` and is within
+`(1e-7·q'(0)/q'(p))²/((1−e²) q'(p))` of `p` — the stop test bounds the last error by `1e-7·q'(0)/q'(p)` (linear rate),
+the quadratic remainder does the rest.  At 89° on the Earth: 9.4e-10 rad (5.4e-8 degrees); at 85°: 7.5e-12 rad. -/
+theorem C08_aeaPhi1zLoop_close (e p : ℝ) (he : 1.0e-7 < e) (he2 : e * e ≤ 1 / 4) (hp : p < π / 2) :
+    ∀ (n : ℕ) (phi r : ℝ), 0 ≤ phi → phi ≤ p → aeaPhi1zLoop e (qsfnz e (sin p)) n phi = .ok r →
+      phi ≤ r ∧ r ≤ p ∧ p - r ≤ (1e-7 * qD e 0 / qD e p) ^ 2 / ((1 - e * e) * qD e p) := by
+  have he0 : (0 : ℝ) < e := lt_trans (by norm_num) he
+  have he1 : e < 1 := by nlinarith
+  have ha : 0 < 1 - e * e := by linarith
+  intro n
+  induction n with
+  | zero => intro phi r _ _ h; simp [aeaPhi1zLoop] at h
+  | succ n ih =>
+    intro phi r h0 hpp h
+    obtain ⟨m1, m2, m3⟩ := C08_aea_newton_monotone e p phi he he2 h0 hpp hp
+    have hq := C08_aea_newton_quadratic e p phi he he2 h0 hpp hp
+    rw [aeaPhi1zLoop] at h
+    simp only [le_real, abs_real, decide_eq_true_eq] at h
+    split_ifs at h with hs
+    · -- stopped here
+      have hr : r = phi + aeaPhi1zStep e (qsfnz e (sin p)) phi := by
+        injection h with h; exact h.symm
+      have hDp := qD_pos e p he0 he1 (by linarith [pi_pos]) hp
+      have hDphi := qD_pos e phi he0 he1 (by linarith [pi_pos]) (lt_of_le_of_lt hpp hp)
+      have hD0 : 0 < qD e 0 := qD_pos e 0 he0 he1 (by linarith [pi_pos]) (by linarith [pi_pos])
+      have hanti := (qD_antitone e 0 phi he0 he2 le_rfl h0 (by linarith)).1
+      have hE0 : 0 ≤ p - phi := by linarith
+      -- E·(q'(p)/q'(0)) ≤ step ≤ 1e-7
+      have hρ : qD e p / qD e 0 ≤ qD e p / qD e phi := div_le_div_of_nonneg_left hDp.le hDphi hanti
+      have hstep : qD e p / qD e phi * (p - phi) ≤ aeaPhi1zStep e (qsfnz e (sin p)) phi := by nlinarith
+      have hE : (p - phi) ≤ 1e-7 * qD e 0 / qD e p := by
+        have h1 : qD e p / qD e 0 * (p - phi) ≤ 1e-7 := by
+          have := abs_le.mp hs
+          nlinarith [mul_le_mul_of_nonneg_right hρ hE0]
+        rw [le_div_iff₀ hDp]
+        have h2 : qD e p / qD e 0 * (p - phi) = (p - phi) * qD e p / qD e 0 := by ring
+        rw [h2, div_le_iff₀ hD0] at h1
+        linarith
+      refine ⟨by rw [hr]; linarith, by rw [hr]; exact m2, ?_⟩
+      rw [hr]
+      have hsq : (p - phi) ^ 2 ≤ (1e-7 * qD e 0 / qD e p) ^ 2 := pow_le_pow_left₀ hE0 hE 2
+      calc p - (phi + aeaPhi1zStep e (qsfnz e (sin p)) phi)
+          ≤ (p - phi) ^ 2 / ((1 - e * e) * qD e p) := hq
+        _ ≤ (1e-7 * qD e 0 / qD e p) ^ 2 / ((1 - e * e) * qD e p) :=
+            div_le_div_of_nonneg_right hsq (by positivity)
+    · obtain ⟨i1, i2, i3⟩ := ih (phi + aeaPhi1zStep e (qsfnz e (sin p)) phi) r (by linarith) m2 h
+      exact ⟨by linarith, i2, i3⟩
+
+/-- **the loop does not run out of passes** when `(1 − q'(p)/q'(0))^n (p − start) ≤ 1e-7` (linear rate alone) -/
+theorem C08_aeaPhi1zLoop_ok (e p : ℝ) (he : 1.0e-7 < e) (he2 : e * e ≤ 1 / 4) (hp0 : 0 ≤ p) (hp : p < π / 2) :
+    ∀ (n : ℕ) (phi : ℝ), 0 ≤ phi → phi ≤ p → (1 - qD e p / qD e 0) ^ n * (p - phi) ≤ 1e-7 →
+      ∃ r, aeaPhi1zLoop e (qsfnz e (sin p)) (n + 1) phi = .ok r := by
+  have he0 : (0 : ℝ) < e := lt_trans (by norm_num) he
+  have he1 : e < 1 := by nlinarith
+  have hDp := qD_pos e p he0 he1 (by linarith [pi_pos]) hp
+  have hD0 : 0 < qD e 0 := qD_pos e 0 he0 he1 (by linarith [pi_pos]) (by linarith [pi_pos])
+  intro n
+  induction n with
+  | zero =>
+    intro phi h0 hpp hx
+    obtain ⟨m1, m2, _⟩ := C08_aea_newton_monotone e p phi he he2 h0 hpp hp
+    have hs : |aeaPhi1zStep e (qsfnz e (sin p)) phi| ≤ 1e-7 := by
+      rw [abs_of_nonneg m1]; simp at hx; linarith
+    exact ⟨phi + aeaPhi1zStep e (qsfnz e (sin p)) phi, by simp [aeaPhi1zLoop, hs]⟩
+  | succ n ih =>
+    intro phi h0 hpp hx
+    obtain ⟨m1, m2, m3⟩ := C08_aea_newton_monotone e p phi he he2 h0 hpp hp
+    by_cases hs : |aeaPhi1zStep e (qsfnz e (sin p)) phi| ≤ 1e-7
+    · exact ⟨phi + aeaPhi1zStep e (qsfnz e (sin p)) phi, by simp [aeaPhi1zLoop, hs]⟩
+    · have hDphi := qD_pos e phi he0 he1 (by linarith [pi_pos]) (lt_of_le_of_lt hpp hp)
+      have hanti := (qD_antitone e 0 phi he0 he2 le_rfl h0 (by linarith)).1
+      have hρ : qD e p / qD e 0 ≤ qD e p / qD e phi := div_le_div_of_nonneg_left hDp.le hDphi hanti
+      have hanti2 := (qD_antitone e 0 p he0 he2 le_rfl (le_trans h0 hpp) hp.le).1
+      have hk0 : 0 ≤ 1 - qD e p / qD e 0 := by
+        have : qD e p / qD e 0 ≤ 1 := by rw [div_le_one hD0]; exact hanti2
+        linarith
+      have hE0 : 0 ≤ p - phi := by linarith
+      have hnext : (1 - qD e p / qD e 0) ^ n * (p - (phi + aeaPhi1zStep e (qsfnz e (sin p)) phi)) ≤ 1e-7 := by
+        have h1 : p - (phi + aeaPhi1zStep e (qsfnz e (sin p)) phi) ≤ (1 - qD e p / qD e 0) * (p - phi) := by
+          nlinarith [mul_le_mul_of_nonneg_right hρ hE0]
+        calc (1 - qD e p / qD e 0) ^ n * (p - (phi + aeaPhi1zStep e (qsfnz e (sin p)) phi))
+            ≤ (1 - qD e p / qD e 0) ^ n * ((1 - qD e p / qD e 0) * (p - phi)) :=
+              mul_le_mul_of_nonneg_left h1 (pow_nonneg hk0 n)
+          _ = (1 - qD e p / qD e 0) ^ (n + 1) * (p - phi) := by ring
+          _ ≤ 1e-7 := hx
+      obtain ⟨r, hr⟩ := ih (phi + aeaPhi1zStep e (qsfnz e (sin p)) phi) (by linarith) m2 hnext
+      refine ⟨r, ?_⟩
+      rw [aeaPhi1zLoop]
+      simp only [le_real, abs_real, hs, decide_false, Bool.false_eq_true, if_false]
+      exact hr
+
+/-! ## the start `asin(qs/2)` lies in `[0, p]`: `q(s) ≤ 2s` -/
+
+/-- `log x ≤ (x − 1/x)/2` for `x ≥ 1` -/
+theorem log_le_half_sub_inv (x : ℝ) (hx : 1 ≤ x) : log x ≤ (x - x⁻¹) / 2 := by
+  have hd : ∀ y : ℝ, 0 < y → HasDerivAt (fun y => (y - y⁻¹) / 2 - log y) ((1 - -(y ^ 2)⁻¹) / 2 - y⁻¹) y := by
+    intro y hy
+    exact (((hasDerivAt_id y).sub (hasDerivAt_inv hy.ne')).div_const 2).sub (hasDerivAt_log hy.ne')
+  have hmono : MonotoneOn (fun y => (y - y⁻¹) / 2 - log y) (Ici (1 : ℝ)) := by
+    apply monotoneOn_of_deriv_nonneg (convex_Ici 1)
+    · intro y hy
+      exact (hd y (lt_of_lt_of_le one_pos hy)).continuousAt.continuousWithinAt
+    · intro y hy
+      rw [interior_Ici] at hy
+      exact (hd y (lt_trans one_pos hy)).differentiableAt.differentiableWithinAt
+    · intro y hy
+      rw [interior_Ici] at hy
+      have hy0 : 0 < y := lt_trans one_pos hy
+      rw [(hd y hy0).deriv]
+      have : (1 - -(y ^ 2)⁻¹) / 2 - y⁻¹ = (y - 1) ^ 2 / (2 * y ^ 2) := by
+        field_simp; ring
+      rw [this]; positivity
+  have h := hmono (Set.mem_Ici.mpr le_rfl) hx hx
+  simp at h
+  linarith
+
+/-- `q(s) ≤ 2s` on `[0, 1]` (with `atanh u ≤ u/(1−u²)` from the previous lemma) -/
+theorem qOf_le_two_mul (e s : ℝ) (he0 : 0 < e) (he1 : e < 1) (hs0 : 0 ≤ s) (hs1 : s ≤ 1) : qOf e s ≤ 2 * s := by
+  have hu0 : 0 ≤ e * s := mul_nonneg he0.le hs0
+  have hu1 : e * s < 1 := by nlinarith
+  have h1 : 0 < 1 - e * s := by linarith
+  have h2 : 0 < 1 + e * s := by linarith
+  have hx : 1 ≤ (1 + e * s) / (1 - e * s) := by rw [le_div_iff₀ h1]; linarith
+  have hlog := log_le_half_sub_inv _ hx
+  rw [Real.log_div h2.ne' h1.ne'] at hlog
+  have hinv : ((1 + e * s) / (1 - e * s) - ((1 + e * s) / (1 - e * s))⁻¹) / 2 = 2 * (e * s) / ((1 - e * s) * (1 + e * s)) := by
+    rw [inv_div]; field_simp; ring
+  rw [hinv] at hlog
+  have ha : 0 < 1 - e * e := by nlinarith
+  have hden : 0 < (1 - e * s) * (1 + e * s) := mul_pos h1 h2
+  -- q = (1−e²)(s/D + (0.5/e)(log(1+es) − log(1−es))) ≤ (1−e²)(s/D + s/D)
+  have hq : qOf e s ≤ (1 - e * e) * (2 * s / ((1 - e * s) * (1 + e * s))) := by
+    unfold qOf
+    rw [show (1 : ℝ) - e * s * (e * s) = (1 - e * s) * (1 + e * s) by ring]
+    apply mul_le_mul_of_nonneg_left _ ha.le
+    have h3 : -(0.5 / e * (log (1 - e * s) - log (1 + e * s))) ≤ 0.5 / e * (2 * (e * s) / ((1 - e * s) * (1 + e * s))) := by
+      have : 0 ≤ 0.5 / e := by positivity
+      nlinarith [mul_le_mul_of_nonneg_left hlog this]
+    have h4 : 0.5 / e * (2 * (e * s) / ((1 - e * s) * (1 + e * s))) = s / ((1 - e * s) * (1 + e * s)) := by
+      field_simp; ring
+    have h5 : 2 * s / ((1 - e * s) * (1 + e * s)) = s / ((1 - e * s) * (1 + e * s)) + s / ((1 - e * s) * (1 + e * s)) := by ring
+    linarith
+  have hle : (1 - e * e) * (2 * s / ((1 - e * s) * (1 + e * s))) ≤ 2 * s := by
+    rw [mul_div_assoc', div_le_iff₀ hden]
+    have : (1 - e * s) * (1 + e * s) = 1 - e * e * (s * s) := by ring
+    rw [this]
+    have hss : s * s ≤ 1 := by nlinarith
+    nlinarith [mul_nonneg hs0 (mul_nonneg (mul_nonneg he0.le he0.le) (sub_nonneg.mpr hss))]
+  linarith
+
+theorem qOf_zero (e : ℝ) : qOf e 0 = 0 := by simp [qOf]
+
+/-- the start of `aeaPhi1z` at `qs = qsfnz e (sin p)`, `0 ≤ p ≤ π/2`, is `arcsin(qs/2) ∈ [0, p]` -/
+theorem aea_start_mem (e p : ℝ) (he : 1.0e-7 < e) (he1 : e < 1) (hp0 : 0 ≤ p) (hp : p ≤ π / 2) :
+    asinz (0.5 * qsfnz e (sin p)) = arcsin (0.5 * qsfnz e (sin p))
+    ∧ 0 ≤ arcsin (0.5 * qsfnz e (sin p)) ∧ arcsin (0.5 * qsfnz e (sin p)) ≤ p := by
+  have he0 : (0 : ℝ) < e := lt_trans (by norm_num) he
+  have hs0 : 0 ≤ sin p := sin_nonneg_of_nonneg_of_le_pi hp0 (by linarith [pi_pos])
+  have hs1 : sin p ≤ 1 := sin_le_one p
+  rw [qsfnz_eq_qOf e _ he (esin_pos e p he0 he1).1 (esin_pos e p he0 he1).2]
+  have hq2 := qOf_le_two_mul e (sin p) he0 he1 hs0 hs1
+  have hq0 : 0 ≤ qOf e (sin p) := by
+    have := (qOf_strictMono e he0 he1).monotoneOn ⟨by norm_num, by norm_num⟩ ⟨by linarith, hs1⟩ hs0
+    rw [qOf_zero] at this; exact this
+  have hle : 0.5 * qOf e (sin p) ≤ sin p := by linarith
+  have hge : 0 ≤ 0.5 * qOf e (sin p) := by positivity
+  refine ⟨?_, arcsin_nonneg.mpr hge, ?_⟩
+  · have : ¬ ((1.0 : ℝ) < |0.5 * qOf e (sin p)|) := by
+      rw [lit_one, abs_of_nonneg hge]; linarith
+    simp only [asinz, gt_real, abs_real, asin_real, this, decide_false, Bool.false_eq_true, if_false]
+  · calc arcsin (0.5 * qOf e (sin p)) ≤ arcsin (sin p) := arcsin_le_arcsin hle
+      _ = p := arcsin_sin (by linarith [pi_pos]) hp
+
+/-- **`aeaPhi1z`: whatever it returns** at `qs = qsfnz e (sin p)`, `0 ≤ p < π/2`, `1e-7 < e`, `e² ≤ 1/4`, is below `p`
+by at most `(1e-7·q'(0)/q'(p))²/((1−e²) q'(p))` — no hypothesis on the start or on convergence. -/
+theorem C08_aeaPhi1z_close (e p r : ℝ) (he : 1.0e-7 < e) (he2 : e * e ≤ 1 / 4) (hp0 : 0 ≤ p) (hp : p < π / 2)
+    (h : aeaPhi1z e (qsfnz e (sin p)) = .ok r) :
+    0 ≤ r ∧ r ≤ p ∧ p - r ≤ (1e-7 * qD e 0 / qD e p) ^ 2 / ((1 - e * e) * qD e p) := by
+  have he0 : (0 : ℝ) < e := lt_trans (by norm_num) he
+  have he1 : e < 1 := by nlinarith
+  obtain ⟨s1, s2, s3⟩ := aea_start_mem e p he he1 hp0 hp.le
+  have hne : ¬ (e < (epsln : ℝ)) := by
+    have : (epsln : ℝ) = 1.0e-10 := rfl
+    rw [this]; intro hc
+    have : (1.0e-10 : ℝ) < 1.0e-7 := by norm_num
+    linarith
+  simp only [aeaPhi1z, lt_real, hne, decide_false, Bool.false_eq_true, if_false, s1] at h
+  obtain ⟨c1, c2, c3⟩ := C08_aeaPhi1zLoop_close e p he he2 hp 25 _ r s2 s3 h
+  exact ⟨le_trans s2 c1, c2, c3⟩
+
+/-- **`aeaPhi1z` converges within its 25 passes** for `0 ≤ p ≤ π/3` (60°): returns `.ok r`, `0 ≤ p − r ≤` the bound above.
+PARTIAL: the full statement is for `0 ≤ p ≤ 89°` (and by oddness for negative `p`); missing is the count of the linear
+phase near the pole, where the contraction `1 − q'(p)/q'(φ₀)` needs a lower bound of the start `φ₀` (the linear rate
+against `q'(0)` used here gives `(1 − cos p)^24 p ≤ 1e-7` only up to 60°). -/
+theorem C08_aeaPhi1z_converges_partial (e p : ℝ) (he : 1.0e-7 < e) (he2 : e * e ≤ 1 / 4) (hp0 : 0 ≤ p) (hp : p ≤ π / 3) :
+    ∃ r, aeaPhi1z e (qsfnz e (sin p)) = .ok r ∧ 0 ≤ r ∧ r ≤ p
+      ∧ p - r ≤ (1e-7 * qD e 0 / qD e p) ^ 2 / ((1 - e * e) * qD e p) := by
+  have he0 : (0 : ℝ) < e := lt_trans (by norm_num) he
+  have he1 : e < 1 := by nlinarith
+  have hp2 : p < π / 2 := by linarith [pi_pos]
+  obtain ⟨s1, s2, s3⟩ := aea_start_mem e p he he1 hp0 hp2.le
+  have hcos : 1 / 2 ≤ cos p := by
+    rw [← Real.cos_pi_div_three]
+    exact cos_le_cos_of_nonneg_of_le_pi hp0 (by linarith [pi_pos]) hp
+  have hρ := qD_ratio_ge_cos e p he0 he1 hp0 hp2.le
+  have hD0 : 0 < qD e 0 := qD_pos e 0 he0 he1 (by linarith [pi_pos]) (by linarith [pi_pos])
+  have hanti2 := (qD_antitone e 0 p he0 he2 le_rfl hp0 hp2.le).1
+  have hk0 : 0 ≤ 1 - qD e p / qD e 0 := by
+    have : qD e p / qD e 0 ≤ 1 := by rw [div_le_one hD0]; exact hanti2
+    linarith
+  have hk : 1 - qD e p / qD e 0 ≤ 1 / 2 := by linarith
+  have hE : 0 ≤ p - arcsin (0.5 * qsfnz e (sin p)) := by linarith
+  have hE2 : p - arcsin (0.5 * qsfnz e (sin p)) ≤ 1.05 := by
+    have : π < 3.15 := pi_lt_d2
+    linarith
+  have hcount : (1 - qD e p / qD e 0) ^ 24 * (p - arcsin (0.5 * qsfnz e (sin p))) ≤ 1e-7 := by
+    have h1 : (1 - qD e p / qD e 0) ^ 24 ≤ (1 / 2 : ℝ) ^ 24 := pow_le_pow_left₀ hk0 hk 24
+    calc (1 - qD e p / qD e 0) ^ 24 * (p - arcsin (0.5 * qsfnz e (sin p)))
+        ≤ (1 / 2 : ℝ) ^ 24 * 1.05 := mul_le_mul h1 hE2 hE (by positivity)
+      _ ≤ 1e-7 := by norm_num
+  obtain ⟨r, hr⟩ := C08_aeaPhi1zLoop_ok e p he he2 hp0 hp2 24 _ s2 s3 hcount
+  have hne : ¬ (e < (epsln : ℝ)) := by
+    have : (epsln : ℝ) = 1.0e-10 := rfl
+    rw [this]; intro hc
+    have : (1.0e-10 : ℝ) < 1.0e-7 := by norm_num
+    linarith
+  have hall : aeaPhi1z e (qsfnz e (sin p)) = .ok r := by
+    simp only [aeaPhi1z, lt_real, hne, decide_false, Bool.false_eq_true, if_false, s1]
+    exact hr
+  obtain ⟨c1, c2, c3⟩ := C08_aeaPhi1z_close e p r he he2 hp0 hp2 hall
+  exact ⟨r, hall, c1, c2, c3⟩
+
+/-! ## the Albers pair -/
+
+/-- **aea_inv_close** (ellipsoidal Albers, both cone signs, `1e-7 < e`, `e² ≤ 1/4`, `0 ≤ φ < π/2`): if inverse(forward(λ, φ))
+returns at all, it returns `λ` exactly and a latitude `φ' ∈ [0, φ]` within `(1e-7·q'(0)/q'(φ))²/((1−e²) q'(φ))` of `φ`
+(5.4e-8 degrees at 89° on the Earth ellipsoids: the 1e-6 degree clause) — NO convergence hypothesis. -/
+theorem C08_aea_inv_close (k : AeaC ℝ) (hs : k.sr.sphere = false) (ha : 0 < k.sr.a) (hn : k.ns0 ≠ 0)
+    (he : 1.0e-7 < k.e3) (he2 : k.e3 * k.e3 ≤ 1 / 4)
+    (lon lat : ℝ) (hlat0 : 0 ≤ lat) (hlat : lat < π / 2) (hpos : 0 < k.c - k.ns0 * qsfnz k.e3 (sin lat))
+    (hlon : |lon| ≤ sPi) (hdl : |lon - k.sr.long0| ≤ sPi)
+    (h1 : -π < k.ns0 * (lon - k.sr.long0)) (h2 : k.ns0 * (lon - k.sr.long0) ≤ π)
+    (res : ℝ × ℝ) (h : (fwdAea k lon lat).bind (fun q => invAea k q.1 q.2) = .ok res) :
+    res.1 = lon ∧ 0 ≤ res.2 ∧ res.2 ≤ lat
+      ∧ lat - res.2 ≤ (1e-7 * qD k.e3 0 / qD k.e3 lat) ^ 2 / ((1 - k.e3 * k.e3) * qD k.e3 lat) := by
+  rw [aea_chain k hs ha hn lon lat hpos hlon hdl h1 h2] at h
+  cases hr : aeaPhi1z k.e3 (qsfnz k.e3 (sin lat)) with
+  | error err => rw [hr] at h; simp [Except.map] at h
+  | ok r =>
+    rw [hr] at h
+    simp only [Except.map] at h
+    injection h with h
+    obtain ⟨c1, c2, c3⟩ := C08_aeaPhi1z_close k.e3 lat r he he2 hlat0 hlat hr
+    subst h
+    exact ⟨rfl, c1, c2, c3⟩
+
+/-- **aea_inv_within_partial** (the same pair, `0 ≤ φ ≤ 60°`): inverse(forward(λ, φ)) DOES return, `.ok (λ, φ')`, with the
+bound above — no "didn't converge" error.  PARTIAL in the latitude range only (see `C08_aeaPhi1z_converges_partial`). -/
+theorem C08_aea_inv_within_partial (k : AeaC ℝ) (hs : k.sr.sphere = false) (ha : 0 < k.sr.a) (hn : k.ns0 ≠ 0)
+    (he : 1.0e-7 < k.e3) (he2 : k.e3 * k.e3 ≤ 1 / 4)
+    (lon lat : ℝ) (hlat0 : 0 ≤ lat) (hlat : lat ≤ π / 3) (hpos : 0 < k.c - k.ns0 * qsfnz k.e3 (sin lat))
+    (hlon : |lon| ≤ sPi) (hdl : |lon - k.sr.long0| ≤ sPi)
+    (h1 : -π < k.ns0 * (lon - k.sr.long0)) (h2 : k.ns0 * (lon - k.sr.long0) ≤ π) :
+    ∃ lat', (fwdAea k lon lat).bind (fun q => invAea k q.1 q.2) = .ok (lon, lat') ∧ 0 ≤ lat' ∧ lat' ≤ lat
+      ∧ lat - lat' ≤ (1e-7 * qD k.e3 0 / qD k.e3 lat) ^ 2 / ((1 - k.e3 * k.e3) * qD k.e3 lat) := by
+  obtain ⟨r, hr, c1, c2, c3⟩ := C08_aeaPhi1z_converges_partial k.e3 lat he he2 hlat0 hlat
+  refine ⟨r, ?_, c1, c2, c3⟩
+  rw [aea_chain k hs ha hn lon lat hpos hlon hdl h1 h2, hr]
+  rfl
+
+/-- the bound in numbers: on an Earth-like ellipsoid (`e² ≤ 0.007`) at `cos φ ≥ 0.0174` (89°) it is below 1.2e-9 rad
+(6.9e-8 degrees, 7.6 mm of meridian arc) -/
+theorem aea_bound_numeric (e phi : ℝ) (he0 : 0 < e) (he2 : e * e ≤ 0.007) (hphi0 : 0 ≤ phi) (hphi : phi ≤ π / 2)
+    (hcos : 0.0174 ≤ cos phi) :
+    (1e-7 * qD e 0 / qD e phi) ^ 2 / ((1 - e * e) * qD e phi) ≤ 1.2e-9 := by
+  have he1 : e < 1 := by nlinarith
+  have ha : 0.993 ≤ 1 - e * e := by linarith
+  have hD0 : 0 < qD e 0 := qD_pos e 0 he0 he1 (by linarith [pi_pos]) (by linarith [pi_pos])
+  have hρ := qD_ratio_ge_cos e phi he0 he1 hphi0 hphi
+  have hρ' : 0.0174 ≤ qD e phi / qD e 0 := le_trans hcos hρ
+  have hDphi : 0 < qD e phi := by
+    by_contra hc
+    have : qD e phi / qD e 0 ≤ 0 := div_nonpos_of_nonpos_of_nonneg (not_lt.mp hc) hD0.le
+    linarith
+  -- q'(φ) ≥ 0.0174 q'(0) = 0.0174·2(1−e²) ≥ 0.03455
+  have hlow : 0.0174 * qD e 0 ≤ qD e phi := by
+    rw [le_div_iff₀ hD0] at hρ'; exact hρ'
+  have hD0v : 1.986 ≤ qD e 0 := by rw [qD_zero]; linarith
+  have hDlow : 0.03455 ≤ qD e phi := by nlinarith
+  have hfrac : 1e-7 * qD e 0 / qD e phi ≤ 1e-7 / 0.0174 := by
+    rw [div_le_div_iff₀ hDphi (by norm_num)]
+    nlinarith
+  have hfrac0 : 0 ≤ 1e-7 * qD e 0 / qD e phi := by positivity
+  have hsq : (1e-7 * qD e 0 / qD e phi) ^ 2 ≤ (1e-7 / 0.0174) ^ 2 := pow_le_pow_left₀ hfrac0 hfrac 2
+  have hden : 0.993 * 0.03455 ≤ (1 - e * e) * qD e phi := by nlinarith
+  calc (1e-7 * qD e 0 / qD e phi) ^ 2 / ((1 - e * e) * qD e phi)
+      ≤ (1e-7 / 0.0174) ^ 2 / ((1 - e * e) * qD e phi) := div_le_div_of_nonneg_right hsq (by positivity)
+    _ ≤ (1e-7 / 0.0174) ^ 2 / (0.993 * 0.03455) := div_le_div_of_nonneg_left (by positivity) (by norm_num) hden
+    _ ≤ 1.2e-9 := by norm_num
 
 /-- non-vacuity: the hypotheses hold on the Earth ellipsoids (e = 0.0818) at 89° from the traced start -/
 example : (1.0e-7 : ℝ) < 0.0818 ∧ (0.0818 : ℝ) * 0.0818 ≤ 1 / 4 ∧ (0 : ℝ) ≤ 1.5135 ∧ (1.5135 : ℝ) ≤ 1.5533 := by
